@@ -4,13 +4,16 @@ Designs (TLC, all interleavings within the bounds, VIEW without the history vari
   DNSCache.tla        fclient/dnscache.go   size bound, served-unexpired, no cross-host answers, every critical
                                             section is a step of the sequential cache, deadlock freedom and
                                             termination of the eviction loop (liveness; size >= 1)
-  KeyFetchPool.tla    keyring.go            result = union of the per-server successes, every call returns
+  KeyFetchPool.tla    keyring.go            explicit worker pool (job queue of capacity Q filled by the caller, then W
+                                            workers): result = union of the per-server successes, deadlock freedom
+                                            and termination for Q = #servers; Q < #servers deadlocks (sanity cfg)
   TransportCache.tla  fclient/client.go     one transport per TLS name, never half-initialised, bounded retries
   LazyID.tla          eventV2.go            NoDataRace with an explicit happens-before relation (the design with
                                             an atomic / eager cache holds; the code as it is does not)
 spec -> code (deterministic, -race build): TLC behaviours of the *_gen wrappers are replayed step by step against
   the real DNS cache (scripted resolver + dial control as scheduler gates), the real DirectKeyFetcher (gated
-  KeyClient, completion order from TLC) and the real federation round tripper (gated resolver underneath the
+  KeyClient, completion order from TLC; plus batches of 1..130 distinct servers around the 64-worker limit with an
+  instant scripted client: result and termination) and the real federation round tripper (gated resolver underneath the
   transports, reaper called directly); after every step the real maps are compared with the model.
 stress (sampled, -race build): k goroutines on the read-only accessors of ONE freshly parsed event (v10, v12), on
   KeyRing.VerifyJSONs over overlapping servers, on one DNS cache and on one transport cache; results must equal
@@ -174,7 +177,11 @@ def run(ctx):
 
     r = ctx.tlc("KeyFetchPool", "KeyFetchPool_quick.cfg", coverage=True)
     _coverage_ok(ctx, r, "KeyFetchPool", ["Take", "Direct", "Notary", "Merge", "Return"])
-    ctx.tlc("KeyFetchPool", "KeyFetchPool_fewworkers.cfg")
+    _coverage_ok(ctx, r, "KeyFetchPool", ["Send", "Close", "StartWorkers"])
+    ctx.tlc("KeyFetchPool", "KeyFetchPool_fewworkers.cfg")      # W < #servers, Q = #servers (the code beyond 64 servers)
+    ctx.tlc("KeyFetchPool", "KeyFetchPool_bigqueue.cfg")        # Q > #servers, W = 1
+    ctx.tlc("KeyFetchPool", "KeyFetchPool_startfirst.cfg")      # alternative design: workers first, Q = 1
+    _expect_violation(ctx, "KeyFetchPool", "KeyFetchPool_smallqueue.cfg", "Deadlock")   # fill before start needs Q >= #servers
 
     r = ctx.tlc("TransportCache", "TransportCache_quick.cfg", coverage=True)
     _coverage_ok(ctx, r, "TransportCache", ["Call", "GetAgain", "SendOk", "SendFail", "Reaper", "Age"])
@@ -186,7 +193,8 @@ def run(ctx):
     ctx.tlc("LazyID", "LazyID_eager.cfg")
     _expect_violation(ctx, "LazyID", "LazyID_none.cfg", "NoDataRace")
     ctx.notes["predicted_by_model"] = ("LazyID with Sync=none (the code as it is) violates NoDataRace; "
-                                       "DNSCache with Size=0 violates EveryCallReturns")
+                                       "DNSCache with Size=0 violates EveryCallReturns; KeyFetchPool with a job queue smaller "
+                                       "than the number of servers, filled before the workers start, deadlocks")
 
     # ---- 2. schedule replay (deterministic) -------------------------------------------------------------
     ctx.harness_build(race=True, pkg=PKG)   # once per run
@@ -206,6 +214,9 @@ def run(ctx):
     keys += ctx.tlc("KeyFetchPool_gen", "KeyFetchPool_gen_quick3.cfg" if quick else "KeyFetchPool_gen_thorough.cfg").records
     keys = _dedupe(keys)
     _replay(ctx, "c19keys", keys, "key fetch pool")
+    # sizes around the worker limit (64): the <= 3-server model cannot show what happens when W < #servers in the code
+    sizes = [{"n": n, "pattern": ctx.seed * 2 + p} for n in (1, 63, 64, 65, 70, 130) for p in (0, 1)]
+    _replay(ctx, "c19keysizes", sizes, "key fetch pool sizes")
 
     if quick:
         tr = ctx.tlc("TransportCache_gen", "TransportCache_gen_sim.cfg", workers=1, simulate=1000, depth=80).records
@@ -241,7 +252,7 @@ def run(ctx):
         "pool gen configs (enumerated); transport schedules enumerated by TLC and sampled by seed (thorough) or simulated (quick); "
         "distinct = distinct sets of (step -> caller position / outcome) classes per schedule; stress runs are sampled "
         "schedules under the race detector" % n_exh)
-    ctx.notes["schedules_replayed"] = {"dns": len(dns), "keys": len(keys), "transport": len(tr)}
+    ctx.notes["schedules_replayed"] = {"dns": len(dns), "keys": len(keys), "key_pool_sizes": len(sizes), "transport": len(tr)}
 
 
 def replay(ctx, rp):
